@@ -212,12 +212,12 @@ Definition bit_width_m (w x : Z) : res Z :=
 Definition bit_ceil_m (w x : Z) : res Z :=
   if x <=? 1 then Ok 1
   else if 32 <=? w then
-    (* is_same_v<UInt, decltype(+x)>:  UInt{1U} << bit_width(UInt{x - 1U}) *)
+    (* is_same_v<UInt, decltype(+x)>:  UInt{1U} << bit_width(static_cast<UInt>(x - 1U)) *)
     do xm <- arith (U w) (x - 1);
     do bw <- bit_width_m w xm;
     shl (U w) 1 bw
   else
-    (* types subject to promotion:  UInt{1U << (bit_width(UInt{x - 1U}) + o) >> o},
+    (* types subject to promotion:  static_cast<UInt>(1U << (bit_width(static_cast<UInt>(x - 1U)) + o) >> o),
        o = digits(unsigned) - digits(UInt); x - 1U is unsigned arithmetic *)
     let o := 32 - w in
     do bw <- bit_width_m w (wu w (wu 32 (x - 1)));
